@@ -21,15 +21,28 @@ def rank_of(name):
     return ord(s[0]) - 96
 
 
-def make(rep, ranks, n, t):
+def make(rep, ranks, n, t, ishuf=False, trev=False):
     cols = {}
     for j, r in enumerate(ranks):
         col = []
         for i in range(n):
             v = np.array([1000.0 * i + 100 * j + k for k in range(t)])
-            col.append(pd.Series(v) if rep == "ns" else v)
+            if rep == "ns":
+                col.append(pd.Series(v, index=list(range(t - 1, -1, -1)) if trev else None))
+            else:
+                col.append(v)
         cols[name_of(r)] = col
-    return pd.DataFrame(cols)
+    df = pd.DataFrame(cols)
+    if ishuf:   # instance labels that are not ascending: [n-1, 0, n-2, 1, ...]
+        lab = []
+        lo, hi = 0, n - 1
+        while lo <= hi:
+            lab.append(hi)
+            if lo != hi:
+                lab.append(lo)
+            lo, hi = lo + 1, hi - 1
+        df.index = lab
+    return df
 
 
 def convert(obj, frm, to):
@@ -92,7 +105,7 @@ def read(obj, rep, cfg):
         toks = []
         for i in insts:
             for c in ids:
-                sub = obj[(obj["case_id"] == i) & (obj["dim_id"] == c)].sort_values("reading_id")
+                sub = obj[(obj["case_id"] == i) & (obj["dim_id"] == c)]
                 toks += [float(v) for v in sub["value"].values]
         shape = [len(insts), len(ids), len(obj) // max(1, len(insts) * len(ids))]
     elif rep == "t2":
@@ -106,7 +119,7 @@ def read(obj, rep, cfg):
 def observe(cfg):
     warnings.filterwarnings("ignore")
     try:
-        obj = make(cfg["from"], cfg["names"], cfg["n"], cfg["t"])
+        obj = make(cfg["from"], cfg["names"], cfg["n"], cfg["t"], cfg.get("ishuf", False), cfg.get("trev", False))
         cur = cfg["from"]
         for to in cfg["path"]:
             obj = convert(obj, cur, to)
@@ -133,6 +146,26 @@ def run(ctx):
         raise T.TLCError("no vectors")
     ctx.notes.append("paths emitted by TLC: %d" % len(r.printed))
     recs = []
+    mats = [v for v in r.printed if "mat" in v]
+    r.printed = [v for v in r.printed if "cfg" in v]
+    if len(mats) < 20:
+        raise T.TLCError("nestedness matrices not emitted")
+    from sktime.utils.data_processing import are_columns_nested, is_nested_dataframe
+    for v in mats:
+        for kind in ("series", "array"):
+            m = v["mat"]
+            df = pd.DataFrame({"c%d" % j: pd.Series([(pd.Series([1.0, 2.0]) if kind == "series" else np.array([1.0, 2.0]))
+                                                       if m[i][j] else 3.5 for i in range(len(m))], dtype=object)
+                               for j in range(len(m[0]))})
+            ctx.evaluations += 1
+            try:
+                got = ([bool(x) for x in are_columns_nested(df)], bool(is_nested_dataframe(df)))
+            except Exception as e:
+                got = ("crash", type(e).__name__)
+            if got != (v["cols"], v["frame"]):
+                ctx.violation({"nestedness": m, "cells": kind},
+                              "NestednessPredicates: cell-type matrix %s (%s cells): expected columns %s frame %s, got %s"
+                              % (m, kind, v["cols"], v["frame"], got))
     for i, v in enumerate(r.printed):
         cfg, exp = v["cfg"], v["exp"]
         obs = observe(cfg)
@@ -173,6 +206,8 @@ def run(ctx):
 
 def replay(ctx, doc):
     sc = doc["scenario"]
+    if "nestedness" in sc:
+        return run(ctx)
     obs = observe(sc["cfg"])
     print("observed:", canon(obs)[:1500])
     if "crash" in obs:
